@@ -251,7 +251,7 @@ def write_evidence(mod, tier: str, seed: int, agg: dict, wall: float) -> str:
             'evaluations': agg['evaluations'],
             'distinct_nontrivial': len(agg['signatures']),
             'rule': getattr(mod, 'RULE', ''),
-            'samples': agg['samples'][:3],
+            'samples': agg['samples'][:3] or ([agg['fallback_sample']] if 'fallback_sample' in agg else []),
             'runs_per_hour': int(agg['evaluations'] / max(wall, 1e-6) * 3600),
             'simulated_seconds': round(agg['sim_s'], 1),
             'loop_passes': agg['passes'],
@@ -332,6 +332,8 @@ def run_check(prop: str, tier: str, seed: int, budget: float | None = None, coun
             agg['signatures'].add(res.get('signature', ''))
         if res.get('plan') is not None and len(agg['samples']) < 3 and not res.get('violations'):
             agg['samples'].append({'plan': res['plan'], 'summary': res.get('sample', {})})
+        elif res.get('plan') is not None and 'fallback_sample' not in agg:
+            agg['fallback_sample'] = {'plan': res['plan'], 'summary': res.get('sample', {})}
         agg['hashseeds'].add(res['req'].get('index', res['req'].get('id', 0)) % HASHSEEDS)
         for v in res.get('violations', []):
             k = match_known(v, known)
